@@ -197,6 +197,8 @@ class NPX:
     def array(self, obj, dtype=None, **k):
         if dtype is not None and not _want_object(dtype):
             return _np.array(obj, dtype=dtype, **k)
+        if dtype is not None and isinstance(dtype, _np.dtype) and dtype.kind == "V":
+            return _np.array(obj, dtype=dtype, **k)
         if isinstance(obj, _np.ndarray) and obj.dtype == object:
             return _np.array(obj, dtype=object, **k)
         try:
@@ -215,6 +217,14 @@ class NPX:
         if a.dtype == object:
             return a.copy()
         return _objectify(_np.ascontiguousarray(a, dtype=dtype))
+
+    def dtype(self, spec, *a, **k):
+        """structured dtypes: float fields become object fields so they can hold symbols"""
+        if isinstance(spec, dict) and "formats" in spec:
+            spec = dict(spec)
+            spec["formats"] = tuple(object if _want_object(f) and f is not None else f
+                                    for f in spec["formats"])
+        return _np.dtype(spec, *a, **k)
 
     def linspace(self, *a, **k):
         return _np.linspace(*a, **k)
